@@ -1153,6 +1153,91 @@ theorem topLevel_item_holds_partial (s bi pt : List Nat) (h : NoLeadSP s)
   refine ⟨s, [], ?_, fun b hb => by cases hb⟩
   rw [dropSP_noLead s h]; exact (parseItem_iff s bi pt).1 hp
 
+/-! ## Repeated dictionary keys: the RFC's ordered map vs. the reported member sequence
+
+§4.2.2 steps 2.4–2.5: "If dictionary already contains a key this_key, overwrite its value with member;
+otherwise append".  `ParseDictionary` calls its callback for EVERY instance, in input order (`RfcDict`
+above is that sequence); the RFC's dictionary is `rfcDictMap` of it.  Read literally ("report the
+members … RFC 9651 yields") the reports differ from the RFC's members exactly when a key is repeated —
+known finding `C56:duplicate-key-instances-all-reported`; a last-wins consumer reconstructs the RFC value. -/
+
+/-- step 2.4 / 2.5 for one member -/
+def dictInsert (m : List (List Nat × List Nat × List Nat)) (e : List Nat × List Nat × List Nat) :
+    List (List Nat × List Nat × List Nat) :=
+  match m with
+  | [] => [e]
+  | x :: m' => if x.1 = e.1 then e :: m' else x :: dictInsert m' e
+
+/-- the dictionary §4.2.2 returns for the member sequence `seq` -/
+def rfcDictMap (seq : List (List Nat × List Nat × List Nat)) : List (List Nat × List Nat × List Nat) :=
+  seq.foldl dictInsert []
+
+def DictValueStatement : Prop :=
+  ∀ s ms, parseDictionary s = some ms ↔ ∃ seq, RfcDict s seq ∧ ms = rfcDictMap seq
+
+/-- False on the code as it is: "u=5, u=9" is the dictionary {u: 9}; two members are reported. -/
+theorem dictValue_full_false : ¬ DictValueStatement := by
+  intro h
+  have hseq : RfcDict [117, 61, 53, 44, 32, 117, 61, 57] [([117], [53], []), ([117], [57], [])] :=
+    (parseDictionary_iff _ _).1 (by decide)
+  have := (h [117, 61, 53, 44, 32, 117, 61, 57] [([117], [57], [])]).2 ⟨_, hseq, by decide⟩
+  revert this; decide
+
+private theorem dictInsert_new (m : List (List Nat × List Nat × List Nat)) (e : List Nat × List Nat × List Nat)
+    (h : ∀ x ∈ m, x.1 ≠ e.1) : dictInsert m e = m ++ [e] := by
+  induction m with
+  | nil => rfl
+  | cons x m ih =>
+    have hx := h x (by simp)
+    simp only [dictInsert, hx, if_false, List.cons_append]
+    rw [ih (fun y hy => h y (by simp [hy]))]
+
+private theorem foldl_dictInsert_nodup (seq acc : List (List Nat × List Nat × List Nat))
+    (h1 : ∀ e ∈ seq, ∀ x ∈ acc, x.1 ≠ e.1) (h2 : (seq.map (fun e => e.1)).Nodup) :
+    seq.foldl dictInsert acc = acc ++ seq := by
+  induction seq generalizing acc with
+  | nil => simp
+  | cons e rest ih =>
+    simp only [List.map_cons, List.nodup_cons] at h2
+    simp only [List.foldl_cons]
+    rw [dictInsert_new acc e (h1 e (by simp))]
+    rw [ih (acc ++ [e]) ?_ h2.2]
+    · simp
+    · intro e' he' x hx
+      simp at hx
+      rcases hx with hx | rfl
+      · exact h1 e' (by simp [he']) x hx
+      · intro heq
+        apply h2.1
+        simp only [List.mem_map]
+        exact ⟨e', he', heq.symm⟩
+
+/-- Without repeated keys the reported sequence IS the RFC's dictionary. -/
+theorem rfcDictMap_nodup (seq : List (List Nat × List Nat × List Nat))
+    (h : (seq.map (fun e => e.1)).Nodup) : rfcDictMap seq = seq := by
+  unfold rfcDictMap
+  have := foldl_dictInsert_nodup seq [] (by intro e _ x hx; cases hx) h
+  simpa using this
+
+/-- The statement holds whenever no key is repeated (both directions). -/
+theorem dictValue_holds_partial (s : List Nat) (ms : List (List Nat × List Nat × List Nat)) :
+    (parseDictionary s = some ms → (ms.map (fun e => e.1)).Nodup →
+        ∃ seq, RfcDict s seq ∧ ms = rfcDictMap seq) ∧
+    (∀ seq, RfcDict s seq → (seq.map (fun e => e.1)).Nodup → ms = rfcDictMap seq →
+        parseDictionary s = some ms) := by
+  constructor
+  · intro h hn
+    exact ⟨ms, (parseDictionary_iff s ms).1 h, (rfcDictMap_nodup ms hn).symm⟩
+  · intro seq hs hn he
+    rw [he, rfcDictMap_nodup seq hn]
+    exact (parseDictionary_iff s seq).2 hs
+
+/-- With repeated keys a last-wins fold over the reports gives the RFC's dictionary:
+    "u=5, u=9" ↦ {u: 9};  "a;x=1, b, a=2" ↦ {a: 2, b: ?1} (the overwritten member keeps its position). -/
+example : (parseDictionary [117, 61, 53, 44, 32, 117, 61, 57]).map rfcDictMap = some [([117], [57], [])] := by decide
+example : (parseDictionary [97, 59, 120, 61, 49, 44, 32, 98, 44, 32, 97, 61, 50]).map rfcDictMap =
+    some [([97], [50], []), ([98], [63, 49], [])] := by decide
+
 /-! ## Non-vacuity: derivations for concrete inputs, obtained through the equivalences -/
 
 -- "u=3, i" (an RFC 9218 priority value)
